@@ -179,12 +179,18 @@ Qed.
 
 (* the items processed so far, including the loads still buffered *)
 Definition fv (s : st) : list fitem :=
-  items_of (rev (out s)) ++ map FLoad (rev (pending s)).
+  items_of (rev (out s)) ++ map (fun x => FLoad (l_id x)) (rev (pending s)).
 
-Lemma fv_push : forall n s, fv (push n s) = fv s ++ [FLoad n].
+Lemma fv_push : forall f n s, fv (push f n s) = fv s ++ [FLoad n].
 Proof.
   intros. unfold fv, push. simpl. rewrite map_app. simpl. rewrite app_assoc. reflexivity.
 Qed.
+
+Lemma fv_set_cur : forall f s, fv (set_cur f s) = fv s.
+Proof. reflexivity. Qed.
+
+Lemma pending_set_cur : forall f s, pending (set_cur f s) = pending s.
+Proof. reflexivity. Qed.
 
 Lemma pending_flush : forall s, pending (flush s) = [].
 Proof. intros s. unfold flush. destruct (pending s) eqn:E; auto. Qed.
@@ -199,8 +205,8 @@ Lemma fv_flush : forall s, fv (flush s) = fv s.
 Proof.
   intros s. unfold fv, flush. destruct (pending s) as [|n l] eqn:E.
   - rewrite E. reflexivity.
-  - cbn [out pending]. change (rev (EvBatch (rev (n :: l)) :: out s))
-      with (rev (out s) ++ [EvBatch (rev (n :: l))]).
+  - cbn [out pending]. change (rev (EvBatch (cur s) (rev (n :: l)) :: out s))
+      with (rev (out s) ++ [EvBatch (cur s) (rev (n :: l))]).
     rewrite items_of_snoc. cbn [items_of_event rev map]. rewrite app_nil_r. reflexivity.
 Qed.
 
@@ -244,7 +250,7 @@ Section ConsumerFacts.
     unfold consume. induction evs as [|e evs IH]; intros s; simpl; auto.
     change (items_of (e :: evs)) with (items_of_event e ++ items_of evs).
     rewrite fold_left_app, IH. f_equal.
-    destruct e; simpl; auto. apply batch_fold.
+    destruct e; simpl; auto. rewrite batch_fold, map_map. reflexivity.
   Qed.
 End ConsumerFacts.
 
@@ -269,7 +275,7 @@ Proof.
   intros m ds cwd rc self. induction l as [|f l IH]; intros s.
   - exists (flush s). simpl. rewrite fv_flush, app_nil_r, pending_flush. auto.
   - destruct f as [n|n]; cbn [map item_of_fitem parse_items].
-    + destruct (IH (push n s)) as (s' & E & F & P). exists s'.
+    + destruct (IH (push (resolve cwd self) n s)) as (s' & E & F & P). exists s'.
       rewrite E, F, fv_push, <- app_assoc. auto.
     + destruct (IH (emit (EvDef n) (flush s))) as (s' & E & F & P). exists s'.
       rewrite E, F, fv_emit_def, fv_flush, <- app_assoc by apply pending_flush. auto.
@@ -292,7 +298,7 @@ Proof.
       destruct (single_items m ds cwd rc self l s) as (s' & E & F & P)
   end.
   rewrite E. exists (rev (out s')). split; auto.
-  rewrite <- (fv_nopend s' P), F, fv_emit_open. reflexivity.
+  rewrite <- (fv_nopend s' P), F, fv_set_cur, fv_emit_open. reflexivity.
 Qed.
 
 (* ------------------------------------------------------------------ (D) pinned = repaired on the good fragment *)
@@ -457,8 +463,14 @@ Proof.
   - rewrite opens_flush. exact H2.
 Qed.
 
-Lemma Rel'_push : forall n s seen, Rel' s seen -> Rel' (push n s) seen.
-Proof. intros n s seen H. exact H. Qed.
+Lemma Rel'_push : forall f n s seen, Rel' s seen -> Rel' (push f n s) seen.
+Proof. intros f n s seen H. exact H. Qed.
+
+Lemma Rel'_set_cur : forall f s seen, Rel' s seen -> Rel' (set_cur f s) seen.
+Proof. intros f s seen H. exact H. Qed.
+
+Lemma Rel_set_cur : forall f s seen, Rel s seen -> Rel (set_cur f s) seen.
+Proof. intros f s seen H. exact H. Qed.
 
 Lemma Rel'_emit_def : forall n s seen, Rel' s seen -> Rel' (emit (EvDef n) s) seen.
 Proof. intros n s seen H. exact H. Qed.
@@ -481,20 +493,20 @@ Section Sim.
 
   Lemma sim_each : forall rc rs bound, rec_ok rc rs bound ->
     forall fl, (forall q, In q fl -> nd q) ->
-    forall s seen, Rel s seen -> unv t seen < bound ->
-      post s seen (each_file rc fl s) (flat_each rs fl seen).
+    forall id s seen, Rel s seen -> unv t seen < bound ->
+      post s seen (each_file rc id fl s) (flat_each rs fl seen).
   Proof.
-    intros rc rs bound Hrec. induction fl as [|q fl IH]; intros Hfl s seen HR Hlt.
+    intros rc rs bound Hrec. induction fl as [|q fl IH]; intros Hfl id s seen HR Hlt.
     - simpl. exists seen, []. rewrite app_nil_r. auto.
     - cbn [each_file flat_each].
       pose proof (Hrec q s seen (Hfl q (or_introl eq_refl)) HR Hlt) as Hp.
       unfold post in Hp. destruct (rc (absr q) s) as [s1|e].
       + destruct Hp as (seen1 & l1 & E1 & R1 & F1 & U1). rewrite E1.
         assert (forall q', In q' fl -> nd q') as Hfl' by (intros q' Hq; apply Hfl; right; exact Hq).
-        specialize (IH Hfl' s1 seen1 R1 ltac:(lia)).
-        unfold post in IH |- *. destruct (each_file rc fl s1) as [s2|e].
+        specialize (IH Hfl' id (set_cur id s1) seen1 (Rel_set_cur id s1 seen1 R1) ltac:(lia)).
+        unfold post in IH |- *. destruct (each_file rc id fl (set_cur id s1)) as [s2|e].
         * destruct IH as (seen2 & l2 & E2 & R2 & F2 & U2). rewrite E2.
-          exists seen2, (l1 ++ l2). rewrite F2, F1, app_assoc.
+          exists seen2, (l1 ++ l2). rewrite F2, fv_set_cur, F1, app_assoc.
           repeat split; auto; try apply R2. lia.
         * destruct IH as [E2 N]. rewrite E2. auto.
       + destruct Hp as [E1 N]. rewrite E1. simpl. auto.
@@ -510,8 +522,8 @@ Section Sim.
       cbn [parse_items flat_items].
     - simpl. exists seen, []. rewrite fv_flush, app_nil_r.
       split; auto. split; [apply Rel'_flush; exact HR|]. auto.
-    - specialize (IH (push n s) seen (Rel'_push n s seen HR) Hlt).
-      unfold post in IH |- *. destruct (parse_items _ _ _ _ _ r (push n s)) as [s'|e].
+    - specialize (IH (push (resolve cwd (absr self)) n s) seen (Rel'_push _ n s seen HR) Hlt).
+      unfold post in IH |- *. destruct (parse_items _ _ _ _ _ r (push _ n s)) as [s'|e].
       + destruct IH as (seen' & l & E & R & F & U). rewrite E.
         exists seen', (FLoad n :: l). rewrite F, fv_push, <- app_assoc. auto.
       + destruct IH as [E N]. rewrite E. auto.
@@ -528,18 +540,18 @@ Section Sim.
                     (spec_target_nd self abs raw Hself) (Rel'_flush s seen HR) Hlt) as Hp.
       unfold post in Hp. destruct (rc (absr (spec_target self abs raw)) (flush s)) as [s1|e].
       + destruct Hp as (seen1 & l1 & E1 & R1 & F1 & U1). rewrite E1.
-        specialize (IH s1 seen1 (proj1 R1) ltac:(lia)).
-        unfold post in IH |- *. destruct (parse_items _ _ _ _ _ r s1) as [s2|e].
+        specialize (IH (set_cur (resolve cwd (absr self)) s1) seen1 (proj1 R1) ltac:(lia)).
+        unfold post in IH |- *. destruct (parse_items _ _ _ _ _ r (set_cur _ s1)) as [s2|e].
         * destruct IH as (seen2 & l2 & E2 & R2 & F2 & U2). rewrite E2.
-          exists seen2, (l1 ++ l2). rewrite F2, F1, fv_flush, app_assoc.
+          exists seen2, (l1 ++ l2). rewrite F2, fv_set_cur, F1, fv_flush, app_assoc.
           repeat split; auto; try apply R2. lia.
         * destruct IH as [E2 N]. rewrite E2. auto.
       + destruct Hp as [E1 N]. rewrite E1. simpl. auto.
     - cbv zeta. rewrite (wild_dir_spec cwd self abs raw Hself).
       destruct (lookup ds (spec_dir self abs raw)) as [fl|] eqn:EL.
       + pose proof (sim_each rc rs bound Hrec fl (fun q Hq => Hds _ fl q EL Hq)
-                      (flush s) seen (Rel'_flush s seen HR) Hlt) as Hp.
-        unfold post in Hp. destruct (each_file rc fl (flush s)) as [s1|e].
+                      (resolve cwd (absr self)) (flush s) seen (Rel'_flush s seen HR) Hlt) as Hp.
+        unfold post in Hp. destruct (each_file rc _ fl (flush s)) as [s1|e].
         * destruct Hp as (seen1 & l1 & E1 & R1 & F1 & U1). rewrite E1.
           specialize (IH s1 seen1 (proj1 R1) ltac:(lia)).
           unfold post in IH |- *. destruct (parse_items _ _ _ _ _ r s1) as [s2|e].
@@ -563,7 +575,7 @@ Section Sim.
     - rewrite (resolve_absr cwd p Hp).
       destruct (lookup t p) as [items|] eqn:EL.
       + pose proof (unv_cons_lt t p seen items EL ES) as Hlt'.
-        assert (Rel' (emit (EvOpen p) (mark (absr p) s)) (p :: seen)) as HR2.
+        assert (Rel' (set_cur p (emit (EvOpen p) (mark (absr p) s))) (p :: seen)) as HR2.
         { split; [|split].
           - simpl. rewrite HI. reflexivity.
           - simpl. rewrite HO. reflexivity.
@@ -574,9 +586,9 @@ Section Sim.
                       items _ (p :: seen) HR2 Hlt2) as Hq.
         unfold post in Hq |- *.
         destruct (parse_items Repaired ds cwd (parse_file Repaired t ds cwd f) (absr p) items
-                    (emit (EvOpen p) (mark (absr p) s))) as [s'|e].
+                    (set_cur p (emit (EvOpen p) (mark (absr p) s)))) as [s'|e].
         * destruct Hq as (seen' & l & E & R & F & U). exists seen', l.
-          rewrite F, fv_emit_open. repeat split; auto; try apply R.
+          rewrite F, fv_set_cur, fv_emit_open. repeat split; auto; try apply R.
           eapply Nat.le_trans; [exact U|apply unv_cons_le].
         * exact Hq.
       + simpl. split; [reflexivity|discriminate].
@@ -624,4 +636,187 @@ Proof.
     + rewrite <- (fv_nopend s' HPend), F. reflexivity.
     + rewrite opens_rev, HO. apply NoDup_rev. exact HN.
   - destruct H as [E N]. rewrite E. auto.
+Qed.
+
+(* ------------------------------------------------------------------ (F) strengthening round 3: the file of a load batch *)
+
+Section BatchFile.
+  Variables (m : mode) (t : tree) (ds : dirs) (cwd : apath).
+
+  Definition stmt_ok (tok : apath) (x : lstmt) : Prop := l_file x = tok /\ written_in t x.
+
+  (* buffered statements were read from the file the load tokenizer stands on; every batch parsed so far is right *)
+  Definition Inv (s : st) : Prop :=
+    Forall (stmt_ok (cur s)) (pending s) /\ Forall (batch_ok t) (out s).
+
+  Lemma Inv_flush : forall s, Inv s -> Inv (flush s).
+  Proof.
+    intros s [HP HO]. unfold flush. destruct (pending s) as [|x l] eqn:E.
+    - split; [rewrite E; constructor|exact HO].
+    - split; cbn [pending cur out]; [constructor|].
+      constructor; [|exact HO]. cbn [batch_ok]. apply Forall_rev. exact HP.
+  Qed.
+
+  Lemma Inv_push : forall f n s, Inv s -> cur s = f -> written_in t (mkL n f) -> Inv (push f n s).
+  Proof.
+    intros f n s [HP HO] HC HW. split; cbn [push pending cur out]; [|exact HO].
+    constructor; [|exact HP]. split; [symmetry; exact HC|exact HW].
+  Qed.
+
+  Lemma Inv_emit : forall e s, Inv s -> batch_ok t e -> Inv (emit e s).
+  Proof.
+    intros e s [HP HO] HE. split; cbn [emit pending cur out]; [exact HP|].
+    constructor; [exact HE|exact HO].
+  Qed.
+
+  Lemma Inv_mark : forall k s, Inv s -> Inv (mark k s).
+  Proof. intros k s H. exact H. Qed.
+
+  (* __update_load is harmless exactly when nothing is buffered: this is where the flush BEFORE an import is needed *)
+  Lemma Inv_set_cur : forall f s, Inv s -> pending s = [] -> Inv (set_cur f s).
+  Proof.
+    intros f s [HP HO] HE. split; cbn [set_cur pending cur out]; [|exact HO].
+    rewrite HE. constructor.
+  Qed.
+
+  Definition rec_inv (rc : rpath -> st -> result st) : Prop :=
+    forall p s s', Inv s -> pending s = [] -> rc p s = Ok s' -> Inv s' /\ pending s' = [].
+
+  Lemma inv_each : forall rc, rec_inv rc -> forall id fl s s',
+    Inv s -> pending s = [] -> cur s = id -> each_file rc id fl s = Ok s' ->
+    Inv s' /\ pending s' = [] /\ cur s' = id.
+  Proof.
+    intros rc Hrc id. induction fl as [|q fl IH]; intros s s' HI HP HC HE; cbn [each_file] in HE.
+    - inversion HE. subst. auto.
+    - destruct (rc (absr q) s) as [s1|e] eqn:E1; [|discriminate].
+      destruct (Hrc _ _ _ HI HP E1) as [HI1 HP1].
+      apply (IH (set_cur id s1) s'); auto.
+      apply Inv_set_cur; auto.
+  Qed.
+
+  Lemma inv_items : forall rc, rec_inv rc -> forall self items0,
+    lookup t (resolve cwd self) = Some items0 ->
+    forall items, incl items items0 -> forall s s',
+      Inv s -> cur s = resolve cwd self ->
+      parse_items m ds cwd rc self items s = Ok s' -> Inv s' /\ pending s' = [].
+  Proof.
+    intros rc Hrc self items0 HL.
+    induction items as [|[n|n|abs raw|abs raw] r IH]; intros Hincl s s' HI HC HE; cbn [parse_items] in HE.
+    - inversion HE. subst. split; [apply Inv_flush; exact HI|apply pending_flush].
+    - apply (IH (fun x Hx => Hincl x (or_intror Hx)) _ _ (Inv_push _ n s HI HC
+              (ex_intro _ items0 (conj HL (Hincl _ (or_introl eq_refl))))) HC HE).
+    - apply (IH (fun x Hx => Hincl x (or_intror Hx)) (emit (EvDef n) (flush s)) s'); auto.
+      + apply Inv_emit; [apply Inv_flush; exact HI|exact I].
+      + unfold flush. destruct (pending s); exact HC.
+    - destruct (rc (absr (import_target cwd self abs raw)) (flush s)) as [s1|e] eqn:E1; [|discriminate].
+      destruct (Hrc _ _ _ (Inv_flush s HI) (pending_flush s) E1) as [HI1 HP1].
+      apply (IH (fun x Hx => Hincl x (or_intror Hx)) (set_cur (resolve cwd self) s1) s'); auto.
+      apply Inv_set_cur; auto.
+    - cbv zeta in HE. destruct (lookup ds (wild_dir m cwd self abs raw)) as [fl|]; [|discriminate].
+      destruct (each_file rc (resolve cwd self) fl (flush s)) as [s1|e] eqn:E1; [|discriminate].
+      assert (cur (flush s) = resolve cwd self) as HCf by (unfold flush; destruct (pending s); exact HC).
+      destruct (inv_each rc Hrc _ fl _ _ (Inv_flush s HI) (pending_flush s) HCf E1) as (HI1 & HP1 & HC1).
+      apply (IH (fun x Hx => Hincl x (or_intror Hx)) s1 s'); auto.
+  Qed.
+
+  Lemma inv_file : forall fuel, rec_inv (parse_file m t ds cwd fuel).
+  Proof.
+    induction fuel as [|f IH]; intros p s s' HI HP HE; cbn [parse_file] in HE; [discriminate|].
+    destruct (is_imported (self_of m cwd p) s).
+    - inversion HE. subst. auto.
+    - destruct (lookup t (resolve cwd (self_of m cwd p))) as [items|] eqn:EL; [|discriminate].
+      refine (inv_items _ IH (self_of m cwd p) items EL items (incl_refl _)
+                (set_cur (resolve cwd (self_of m cwd p))
+                   (emit (EvOpen (resolve cwd (self_of m cwd p))) (mark (self_of m cwd p) s))) s' _ eq_refl HE).
+      apply Inv_set_cur; [|exact HP].
+      apply Inv_emit; [apply Inv_mark; exact HI|exact I].
+  Qed.
+End BatchFile.
+
+Lemma load_batch_file :
+  forall m t ds cwd mabs mraw fuel evs,
+    parse_project m t ds cwd mabs mraw fuel = Ok evs -> Forall (batch_ok t) evs.
+Proof.
+  intros m t ds cwd mabs mraw fuel evs H. unfold parse_project in H.
+  destruct (parse_file m t ds cwd fuel (mkR mabs (pynorm mraw)) st0) as [s'|e] eqn:E; [|discriminate].
+  inversion H. subst.
+  assert (Inv t st0) as H0 by (split; constructor).
+  destruct (inv_file m t ds cwd fuel _ _ _ H0 eq_refl E) as [[_ HO] _].
+  apply Forall_rev. exact HO.
+Qed.
+
+Lemma batch_ok_file : forall t e, batch_ok t e -> batch_file_ok e.
+Proof.
+  intros t [p|n|tok l]; simpl; auto.
+  apply Forall_impl. intros x [H _]. exact H.
+Qed.
+
+Lemma sitems_of_cons : forall e evs, sitems_of (e :: evs) = sitems_of_event e ++ sitems_of evs.
+Proof. reflexivity. Qed.
+
+Lemma erase_sitems : forall evs, map erase_file (sitems_of evs) = items_of evs.
+Proof.
+  induction evs as [|e evs IH]; auto.
+  rewrite sitems_of_cons, map_app, IH.
+  change (items_of (e :: evs)) with (items_of_event e ++ items_of evs). f_equal.
+  destruct e; simpl; auto. rewrite map_map. reflexivity.
+Qed.
+
+Section FileConsumerFacts.
+  Variables (S : Type) (on_def : S -> nat -> S) (on_load : S -> apath -> nat -> S).
+
+  Lemma batch_own_files : forall tok l s, Forall (fun x => l_file x = tok) l ->
+    fold_left (fun s x => on_load s tok (l_id x)) l s
+    = fold_left (sstep S on_def on_load) (map (fun x => SLoad (l_file x) (l_id x)) l) s.
+  Proof.
+    intros tok. induction l as [|x l IH]; intros s H; auto.
+    apply Forall_cons_iff in H. destruct H as [Hx Hl].
+    cbn [fold_left map sstep]. rewrite Hx. apply IH. exact Hl.
+  Qed.
+
+  Lemma fconsume_sitems : forall evs s, Forall batch_file_ok evs ->
+    fconsume S on_def on_load s evs = fold_left (sstep S on_def on_load) (sitems_of evs) s.
+  Proof.
+    unfold fconsume. induction evs as [|e evs IH]; intros s H; auto.
+    inversion H as [|e' evs' He Hevs]. subst.
+    rewrite sitems_of_cons, fold_left_app. cbn [fold_left]. rewrite IH by exact Hevs. f_equal.
+    destruct e as [p|n|tok l]; auto. apply batch_own_files. exact He.
+  Qed.
+End FileConsumerFacts.
+
+Lemma sitems_written_batch : forall t tok l,
+  Forall (fun x => l_file x = tok /\ written_in t x) l ->
+  Forall (fun i => match i with SLoad f n => written_in t (mkL n f) | SDef _ => True end)
+         (map (fun x => SLoad (l_file x) (l_id x)) l).
+Proof.
+  intros t tok. induction l as [|x l IHl]; intro H; [constructor|].
+  apply Forall_cons_iff in H. destruct H as [[_ Hx] Hl].
+  cbn [map]. constructor; [|apply IHl; exact Hl].
+  destruct x. exact Hx.
+Qed.
+
+Lemma sitems_written : forall t evs, Forall (batch_ok t) evs ->
+  Forall (fun i => match i with SLoad f n => written_in t (mkL n f) | SDef _ => True end) (sitems_of evs).
+Proof.
+  intros t. induction evs as [|e evs IH]; intro H; [constructor|].
+  apply Forall_cons_iff in H. destruct H as [He Hevs].
+  rewrite sitems_of_cons. apply Forall_app. split; [|apply IH; exact Hevs].
+  destruct e as [p|n|tok l]; simpl; auto.
+  apply (sitems_written_batch t tok l He).
+Qed.
+
+Lemma file_sensitive_backend :
+  forall (S : Type) (on_def : S -> nat -> S) (on_load : S -> apath -> nat -> S)
+         m t ds cwd mabs mraw fuel evs s,
+    parse_project m t ds cwd mabs mraw fuel = Ok evs ->
+    fconsume S on_def on_load s evs = fold_left (sstep S on_def on_load) (sitems_of evs) s
+    /\ map erase_file (sitems_of evs) = items_of evs
+    /\ Forall (fun i => match i with SLoad f n => written_in t (mkL n f) | SDef _ => True end) (sitems_of evs).
+Proof.
+  intros S on_def on_load m t ds cwd mabs mraw fuel evs s H.
+  pose proof (load_batch_file _ _ _ _ _ _ _ _ H) as HB.
+  split; [|split].
+  - apply fconsume_sitems. eapply Forall_impl; [|exact HB]. apply batch_ok_file.
+  - apply erase_sitems.
+  - apply sitems_written. exact HB.
 Qed.
